@@ -14,27 +14,35 @@
   what an empty statistics object does).  `values` is the chunk's real content; the fold never
   reads it — it is there so the theorems can speak about "every value".
 
-  Deviation switches (defects of the unchanged tree, `Dev` all-false = intended algorithm):
+  Deviation switches (defects of the tree before `fix:` 35af6bd — `Dev.preFix`; `Dev` all-false = intended algorithm = current tree):
     * `statslessKeepsMinMax` — a chunk that reports no (min,max) leaves the accumulated min/max
       untouched and they are published as bounds of the whole column (C18-F1, DESIGN A.11);
     * `ndvRangeOverflow` — `(max - min) as u64 + 1` is computed in `i64`: panics (debug build,
-      overflow checks) when `max - min > i64::MAX` (C18-F2).
+      overflow checks) when `max - min > i64::MAX` (C18-F2);
+    * `unsignedAsSigned` — the footer min/max of a column with an unsigned logical type (UINT_8..UINT_64, chunk
+      field `ub` = bit width of the physical type, 0 = signed) are read through the signed `Int32`/`Int64` arms
+      and published bit-reinterpreted (u32 4294967295 ↦ −1) (C18-F3).
 -/
 namespace IQE.Engine.StatsFold
 
 structure Dev where
   statslessKeepsMinMax : Bool := false
   ndvRangeOverflow : Bool := false
+  unsignedAsSigned : Bool := false
 deriving Repr, DecidableEq
 
-/-- the unchanged tree -/
-def Dev.current : Dev := { statslessKeepsMinMax := true, ndvRangeOverflow := true }
+/-- the tree before `fix:` commit 35af6bd (all three defects present) -/
+def Dev.preFix : Dev := { statslessKeepsMinMax := true, ndvRangeOverflow := true, unsignedAsSigned := true }
+
+/-- the current tree: commit 35af6bd repaired C18-F1/F2/F3, every switch is off -/
+def Dev.current : Dev := {}
 
 structure Chunk where
   rows : Nat
   nullCount : Option Nat
   minmax : Option (Int × Int)
   values : List (Option Int)
+  ub : Nat := 0                  -- 0: signed physical/logical type; 32 / 64: unsigned logical type over INT32 / INT64
 deriving Repr
 
 /-- `ColAcc` (+ `void`, which only the intended algorithm sets). -/
@@ -58,10 +66,21 @@ def Chunk.allNull (c : Chunk) : Bool := c.rows == 0 || c.nullCount == some c.row
 def optMin (a : Option Int) (x : Int) : Int := match a with | none => x | some m => if m ≤ x then m else x
 def optMax (a : Option Int) (x : Int) : Int := match a with | none => x | some m => if x ≤ m then m else x
 
+def i64Max : Int := 9223372036854775807
+
+/-- the (min,max) the fold takes from a chunk. Intended: an unsigned column's stored bit patterns are decoded
+    (`x mod 2^ub`) and used only when they fit `i64`; otherwise the chunk counts as not reporting. -/
+def Chunk.eff (dev : Dev) (c : Chunk) : Option (Int × Int) :=
+  match c.minmax with
+  | none => none
+  | some (lo, hi) =>
+    if c.ub == 0 || dev.unsignedAsSigned then some (lo, hi)
+    else if hi % (2 ^ c.ub) ≤ i64Max && lo % (2 ^ c.ub) ≤ i64Max then some (lo % (2 ^ c.ub), hi % (2 ^ c.ub)) else none
+
 /-- one column chunk -/
 def step (dev : Dev) (a : Acc) (c : Chunk) : Acc :=
   let nc := addNulls a.nullCount c.nullCount
-  match c.minmax with
+  match c.eff dev with
   | some (lo, hi) =>
     { a with nullCount := nc, hasInt := true, min := some (optMin a.min lo), max := some (optMax a.max hi) }
   | none =>
@@ -82,8 +101,6 @@ inductive Outcome (α : Type) where
   | ok : α → Outcome α
   | panic : Outcome α
 deriving Repr, DecidableEq
-
-def i64Max : Int := 9223372036854775807
 
 /-- `ndv_est` of an integer column: `non_null.min((max - min) as u64 + 1)`. -/
 def ndvOf (dev : Dev) (nonNull : Nat) (hasInt : Bool) (mn mx : Option Int) : Outcome (Option Nat) :=
